@@ -154,10 +154,10 @@ PROPS = {
                       "ASan+UBSan with exact-size child arrays. Not all (cell, childRes) pairs.",
         "level_note": "Trusted base: reference child enumerator/rank (vf_kit.c). Centre coincidence uses C02's tolerance.",
         "technique": "runtime monitoring: element-wise comparison with a documentation-derived child enumerator under ASan/UBSan with exact-size buffers",
-        "evaluations": ["children.cases", "ancestor.pairs", "errors.calls"],
+        "evaluations": ["children.cases", "ancestor.pairs", "errors.calls", "sizeonly.cases"],
         "rule": "cases: (cell, childRes) child lists, (cell -> every ancestor) membership chains, (cell, hostile resolution) error codes. Non-trivial = child list with >1 child, or a chain "
                 "from a cell of res>0; distinct by hash of (cell, childRes).",
-        "require": {"children.cases": 5000, "children.cells": 1000000, "ancestor.pairs": 10000, "errors.rejected": 1000},
+        "require": {"children.cases": 5000, "children.cells": 1000000, "ancestor.pairs": 10000, "errors.rejected": 1000, "sizeonly.cases": 3000},
         "assumptions": ["reference enumerator equals the documented digit layout"],
     },
     "C05": {
